@@ -65,9 +65,18 @@ Section Reads.
 
     (* the reader resolves every hashed ground subnode, at its path, to the decoded
        encoding of that subnode *)
-    Definition covered (f : bool) (p : list N) (G : node) : Prop :=
+    Definition cov0 (f : bool) (p : list N) (G : node) : Prop :=
       forall q Gq, gsub f p G q Gq ->
         exists e, node_enc H Gq = Some e /\ R (H e) q = Some (collapse H Gq, e).
+
+    (* something is stored (and resolvable) at [q] *)
+    Definition stored (q : list N) : Prop := exists h n b, R h q = Some (n, b).
+
+    (* region exactness: below [p] the store holds nothing but hashed nodes of [G] *)
+    Definition exactb (f : bool) (p : list N) (G : node) : Prop :=
+      forall q, ple p q -> stored q -> exists Gq, gsub f p G q Gq.
+
+    Definition covered (f : bool) (p : list N) (G : node) : Prop := cov0 f p G /\ exactb f p G.
 
     Definition untouched (p : list N) : Prop := forall q, delp q -> ~ ple p q.
 
@@ -91,12 +100,24 @@ Section Reads.
     Lemma untouched_app p r : untouched p -> untouched (p ++ r).
     Proof. intros U q D X. apply (U q D). eapply ple_app_l. exact X. Qed.
 
-    Lemma covered_short f p k c : covered f p (NShort k c) -> covered false (p ++ k) c.
-    Proof. intros C q Gq G. apply C. apply gsub_short. exact G. Qed.
+    Lemma covered_short f p k c : k <> [] -> covered f p (NShort k c) -> covered false (p ++ k) c.
+    Proof.
+      intros K [C X]. split.
+      - intros q Gq G. apply C. apply gsub_short. exact G.
+      - intros q Q St. destruct (X q (ple_app_l _ _ _ Q) St) as [Gq GS].
+        inversion GS; subst; [exfalso; apply ple_self_app in Q; contradiction|eauto].
+    Qed.
 
     Lemma covered_full f p cs i c : nth_error cs i = Some c -> (i < 16)%nat ->
       covered f p (NFull cs) -> covered false (p ++ [N.of_nat i]) c.
-    Proof. intros E I C q Gq G. apply C. eapply gsub_full; eassumption. Qed.
+    Proof.
+      intros E I [C X]. split.
+      - intros q Gq G. apply C. eapply gsub_full; eassumption.
+      - intros q Q St. destruct (X q (ple_app_l _ _ _ Q) St) as [Gq GS].
+        inversion GS as [| |f0 p0 cs0 j cj q0 Gq0 Ej Ij GSj]; subst; [exfalso; apply ple_self_app in Q; discriminate|].
+        destruct (Nat.eq_dec j i) as [->|NE]; [rewrite E in Ej; inversion Ej; subst; eauto|].
+        exfalso. eapply (ple_sibling p (N.of_nat j) (N.of_nat i)); [lia|eapply gsub_ple; exact GSj|exact Q].
+    Qed.
 
     (* the decoded encoding of a covered, untouched ground node represents it *)
     Lemma rep_child_collapse p c :
@@ -121,7 +142,7 @@ Section Reads.
         apply rep_child_collapse.
         + inversion W; subst; [right; left; eauto|right; right; assumption].
         + intros Wc Cc Uc. apply IH; assumption.
-        + eapply covered_short. exact C.
+        + eapply covered_short; [|exact C]. inversion W; subst; [apply valid_key_nonempty; assumption|assumption].
         + apply untouched_app. exact U.
       - cbn [collapse]. inversion W as [| |cs0 HL Hch H16]; subst.
         apply rep_full; [rewrite map_length; reflexivity| |intros _; split; assumption].
@@ -147,7 +168,7 @@ Section Reads.
       inversion Rp as [f0 p0|f0 p0 v|f0 p0 h G0 e SF W E Hh HB C U|f0 p0 k c c' Rc CO|f0 p0 cs cs' HL Rcs CO]; subst.
       - cbn. rewrite lk_empty. eauto.
       - destruct Wp as [[-> _]|[_ Wn]]; [cbn; eauto|inversion Wn].
-      - destruct (C p G (gsub_here f p G e SF E HB)) as (e' & E' & RS).
+      - destruct (proj1 C p G (gsub_here f p G e SF E HB)) as (e' & E' & RS).
         rewrite E in E'. inversion E'; subst e'.
         cbn [get]. rewrite RS.
         destruct (IH f p (collapse H G) G key (rep_collapse G W f p C U) Wp) as (t' & d & ev & GE).
@@ -314,7 +335,7 @@ Section CommitPost.
   Lemma skip_post f p G ns :
     untouched delp p -> covered H R1 f p G -> pre_at (ple p) ns -> post_at f p G ns.
   Proof.
-    intros U C P q Gq GS. destruct (C q Gq GS) as (e & E & RS). exists e. split; [exact E|].
+    intros U C P q Gq GS. destruct (proj1 C q Gq GS) as (e & E & RS). exists e. split; [exact E|].
     apply resolve_of_blob in RS. destruct RS as (_ & SG & _).
     unfold nsval. destruct (am_get q ns) eqn:A; [|exact SG].
     exfalso. apply (U q); [apply P; [eapply gsub_ple; exact GS|congruence]|eapply gsub_ple; exact GS].
@@ -500,10 +521,11 @@ Section ReadsBack.
   (* the store holds the ground trie [F] under root hash [root] *)
   Definition store_ok (S : store) (root : list N) (F : node) : Prop :=
     gok F /\
+    exactb H (resolve_of H PathScheme S) true [] F /\
     match F with
     | NEmpty => root = H empty_root_preimage
     | _ => exists e, node_enc H F = Some e /\ root = H e /\
-                     covered H (resolve_of H PathScheme S) true [] F
+                     cov0 H (resolve_of H PathScheme S) true [] F
     end.
 
   Lemma gsub_pwf f p G q Gq : gsub H f p G q Gq -> pwf G -> pwf Gq.
@@ -565,18 +587,20 @@ Section ReadsBack.
 
   (* committing leaves a store that holds the ground trie under the returned root *)
   Theorem commit_store_ok S ss F r ons :
-    sinv S ss F -> commit H ss = Some (r, ons) -> store_ok (applied S ons) r F.
+    sinv S ss F -> commit H ss = Some (r, ons) ->
+    exactb H (resolve_of H PathScheme (applied S ons)) true [] F ->
+    store_ok (applied S ons) r F.
   Proof.
-    intros SI C. pose proof SI as [GO Rp]. split; [exact GO|].
+    intros SI C XB. pose proof SI as [GO Rp]. split; [exact GO|]. split; [exact XB|].
     destruct (root_cases ss F S SI) as [[RT ->]|(SF & Cn & W)].
     - unfold commit in C. rewrite RT in C. destruct (deleted_nodes (s_tr ss)); inversion C; reflexivity.
     - destruct (pwf_enc_total H H_len F W) as [e E].
       assert (GS : gsub H true [] F [] F) by (apply (gsub_here H true [] F e SF E); reflexivity).
-      assert (G : r = H e /\ covered H (resolve_of H PathScheme (applied S ons)) true [] F).
+      assert (G : r = H e /\ cov0 H (resolve_of H PathScheme (applied S ons)) true [] F).
       { assert (HR : hash_root H (s_root ss) = Some (H e)) by (eapply rep_hash_root; eassumption).
         assert (FIN : forall ns1 h', commit_node H commit_fuel (dirty_at ss) (s_tr ss) true []
                                   (s_root ss) (add_deletions (s_tr ss) []) = Some (NHash h', ns1) ->
-                      covered H (resolve_of H PathScheme (apply_nodeset PathScheme ns1 S)) true [] F).
+                      cov0 H (resolve_of H PathScheme (apply_nodeset PathScheme ns1 S)) true [] F).
         { intros ns1 h' CN.
           pose proof (commit_node_sorted H _ _ _ _ _ _ _ _ _ CN (add_deletions_sorted _ _ (sorted_nil))) as SO.
           apply (commit_node_post H H_len S) with (G := F) in CN;
@@ -594,13 +618,13 @@ Section ReadsBack.
         - destruct (negb (dirty_at ss [])) eqn:DR.
           + inversion C; subst. split; [reflexivity|]. cbn [applied].
             apply negb_true_iff in DR. inversion Rp; subst.
-            match goal with CO : clean_ok _ _ _ _ _ _ _ |- _ => destruct (CO DR) as [_ X]; exact X end.
+            match goal with CO : clean_ok _ _ _ _ _ _ _ |- _ => destruct (CO DR) as [_ X]; exact (proj1 X) end.
           + dmatch C; [|discriminate]. destruct p as [[| | | |h'] ns1]; try discriminate.
             inversion C; subst. split; [reflexivity|]. cbn [applied]. eapply FIN; reflexivity.
         - destruct (negb (dirty_at ss [])) eqn:DR.
           + inversion C; subst. split; [reflexivity|]. cbn [applied].
             apply negb_true_iff in DR. inversion Rp; subst.
-            match goal with CO : clean_ok _ _ _ _ _ _ _ |- _ => destruct (CO DR) as [_ X]; exact X end.
+            match goal with CO : clean_ok _ _ _ _ _ _ _ |- _ => destruct (CO DR) as [_ X]; exact (proj1 X) end.
           + dmatch C; [|discriminate]. destruct p as [[| | | |h'] ns1]; try discriminate.
             inversion C; subst. split; [reflexivity|]. cbn [applied]. eapply FIN; reflexivity.
         - cbn [negb] in C.
@@ -613,18 +637,19 @@ Section ReadsBack.
   Theorem open_sinv S root F :
     store_ok S root F -> exists ss, open_trie H PathScheme S root = TOk ss /\ sinv S ss F.
   Proof.
-    intros [GO SO]. unfold open_trie.
+    intros (GO & XB & SO). unfold open_trie.
     destruct GO as [->|[Cn W]].
     - subst root. rewrite beqb_refl. eexists. split; [reflexivity|].
       split; [left; reflexivity|constructor].
     - assert (SF : is_sf F = true) by (destruct (pwf_shape F W) as [(k & c & ->)|(cs & ->)]; reflexivity).
       assert (X : exists e, node_enc H F = Some e /\ root = H e /\
-                            covered H (resolve_of H PathScheme S) true [] F)
+                            cov0 H (resolve_of H PathScheme S) true [] F)
         by (destruct F; try discriminate; exact SO).
-      destruct X as (e & E & -> & C).
+      destruct X as (e & E & -> & C0).
+      assert (C : covered H (resolve_of H PathScheme S) true [] F) by (split; assumption).
       rewrite beqb_neq.
       2: { intro X. apply H_inj_empty in X. eapply enc_not_empty_root; eassumption. }
-      destruct (C [] F (gsub_here H true [] F e SF E eq_refl)) as (e' & E' & RS).
+      destruct (C0 [] F (gsub_here H true [] F e SF E eq_refl)) as (e' & E' & RS).
       rewrite E in E'. inversion E'; subst e'. rewrite RS.
       eexists. split; [reflexivity|]. split; [right; split; assumption|]. cbn [s_root].
       apply rep_collapse; [exact H_len|exact W|exact C|].
@@ -649,7 +674,9 @@ Section ReadsBack.
      same value there as in the in-memory trie before the commit — the pure
      lookup of the ground trie *)
   Theorem commit_reads_back_sinv S ss F r ons key :
-    sinv S ss F -> commit H ss = Some (r, ons) -> forallb byteb key = true ->
+    sinv S ss F -> commit H ss = Some (r, ons) ->
+    exactb H (resolve_of H PathScheme (applied S ons)) true [] F ->
+    forallb byteb key = true ->
     exists ss2,
       open_trie H PathScheme (applied S ons) r = TOk ss2 /\
       exists v t1 d1 ev1 t2 d2 ev2,
@@ -657,8 +684,8 @@ Section ReadsBack.
         trie_get (resolve_of H PathScheme (applied S ons)) (s_root ss2) key = TOk (v, t2, d2, ev2) /\
         v = lk F (keybytes_to_hex key).
   Proof.
-    intros SI C BK.
-    destruct (open_sinv _ _ _ (commit_store_ok S ss F r ons SI C)) as (ss2 & O & SI2).
+    intros SI C XB BK.
+    destruct (open_sinv _ _ _ (commit_store_ok S ss F r ons SI C XB)) as (ss2 & O & SI2).
     exists ss2. split; [exact O|].
     destruct (sess_get_lk S ss F key SI BK) as (t1 & d1 & ev1 & G1).
     destruct (sess_get_lk _ ss2 F key SI2 BK) as (t2 & d2 & ev2 & G2).
